@@ -261,6 +261,11 @@ pub fn compare(c: &Case, t: &Transform, cs: &mut CaseStats) -> Result<u64, Strin
         if lowdim_bad || !(ia.well && ib.well) {
             continue;
         }
+        if tol::lowdim_area_unreliable_cell(c, ia.kappa) || tol::lowdim_area_unreliable_cell(&tc, ib.kappa) {
+            cs.count("meta_cells_faces_skipped_lowdim_large_coordinates", 1);
+            cs.label("known-finding:lowdim-large-coordinates");
+            continue;
+        }
         // faces, both directions
         let mapped: BTreeMap<Key, f64> = a.faces[i]
             .iter()
